@@ -4,6 +4,7 @@ import (
 	"encoding/json"
 	"fmt"
 	"os"
+	"path/filepath"
 	"reflect"
 	"sort"
 	"strings"
@@ -112,7 +113,10 @@ type c03Res struct {
 	Layer      int                    `json:"layer"`
 	Generated  bool                   `json:"generated"`
 	NoHash     bool                   `json:"noHash"`
-	Doc        map[string]interface{} `json:"-"`
+	// Raw, when set, is the text written to the file instead of the rendering of Doc (YAML anchors / aliases);
+	// Doc is the same document with the aliases expanded
+	Raw string                 `json:"raw,omitempty"`
+	Doc map[string]interface{} `json:"-"`
 }
 
 type c03Edge struct {
@@ -138,11 +142,14 @@ type c03Layer struct {
 	// JSON6902 patches of the `patches:` field that set or remove the WHOLE annotations map of a resource
 	// (the build annotations carrying the rename history must survive them)
 	Patches []c03Patch `json:"patches,omitempty"`
+	// Fn: the kustomization runs an exec KRM function that returns its input (`cat`) under `transformers:`;
+	// the rename history travels through the function in the build annotations
+	Fn bool `json:"fn,omitempty"`
 }
 
 type c03Patch struct {
 	ID   string `json:"id"`   // target resource
-	Op   string `json:"op"`   // add | replace | remove (remove is followed by an add that restores the user annotations)
+	Op   string `json:"op"`   // JSON6902: add | replace | remove (followed by an add restoring the user annotations); merge = strategic merge patch
 	Kind string `json:"kind"` // target kind
 }
 
@@ -573,6 +580,10 @@ func c03GenBuild(rng *Rng, rules []krusty.VerifC03Rule) *c03Build {
 	if rng.Chance(30) {
 		c03AddAnnotationPatches(g)
 	}
+	if rng.Chance(12) {
+		// an exec KRM function (identity) as a transformer of one kustomization
+		b.Layers[rng.Intn(len(b.Layers))].Fn = true
+	}
 	c03Render(b, rng)
 	return b
 }
@@ -609,7 +620,7 @@ func c03AddAnnotationPatches(g *c03Gen) {
 		}
 		at := where[rng.Intn(len(where))]
 		b.Layers[at].Patches = append(b.Layers[at].Patches,
-			c03Patch{ID: t.ID, Kind: t.Kind, Op: rng.Pick([]string{"add", "replace", "remove"})})
+			c03Patch{ID: t.ID, Kind: t.Kind, Op: rng.Pick([]string{"add", "replace", "remove", "add", "replace", "remove", "merge"})})
 		n++
 	}
 }
@@ -626,6 +637,18 @@ func c03PatchEntry(b *c03Build, p c03Patch) map[string]interface{} {
 			}
 		}
 	}
+	target := map[string]interface{}{"kind": p.Kind, "annotationSelector": c03Tracer + "=" + p.ID}
+	if p.Op == "merge" {
+		// a strategic merge patch through the same field: no StorePreviousId (name / kind changes not allowed)
+		t := b.res(p.ID)
+		av := "v1"
+		if t != nil {
+			av = t.APIVersion
+		}
+		doc := map[string]interface{}{"apiVersion": av, "kind": p.Kind,
+			"metadata": map[string]interface{}{"name": "any", "annotations": map[string]interface{}{"verif.c03/patched": "yes"}}}
+		return map[string]interface{}{"target": target, "patch": c03Yaml(doc)}
+	}
 	var ops []interface{}
 	switch p.Op {
 	case "remove":
@@ -638,10 +661,7 @@ func c03PatchEntry(b *c03Build, p c03Patch) map[string]interface{} {
 	if err != nil {
 		panic(err)
 	}
-	return map[string]interface{}{
-		"target": map[string]interface{}{"kind": p.Kind, "annotationSelector": c03Tracer + "=" + p.ID},
-		"patch":  string(raw),
-	}
+	return map[string]interface{}{"target": target, "patch": string(raw)}
 }
 
 // c03AddTwins: in a build with two sibling bases, copy a referent and a referrer of it from one base into
@@ -917,6 +937,121 @@ func c03GenBindingBuild(rng *Rng, rules []krusty.VerifC03Rule) *c03Build {
 	return b
 }
 
+// c03GenAnchorBuild: one referrer whose reference fields share ONE scalar through a YAML anchor and aliases
+// (`serviceAccountName: &app app`, `configMap: {name: *app}`, `secretName: *app`), the referents being
+// different resources with the same original name that end with different final names (content hashes,
+// layers).  Each field must follow its own referent: the loaded document may not share the scalar node.
+func c03GenAnchorBuild(rng *Rng, rules []krusty.VerifC03Rule) *c03Build {
+	b := &c03Build{Files: map[string]string{}, Top: "/top", Shape: "anchors"}
+	g := &c03Gen{rng: rng, rules: rules, b: b}
+	if rng.Chance(50) {
+		b.Layers = []c03Layer{{Dir: "/top", Parent: -1}}
+	} else {
+		b.Layers = []c03Layer{{Dir: "/top", Parent: -1}, {Dir: "/base", Parent: 0}}
+	}
+	for i := range b.Layers {
+		if rng.Chance(60) {
+			b.Layers[i].Prefix = rng.Pick(c03Prefixes)
+		}
+		if rng.Chance(25) {
+			b.Layers[i].Suffix = rng.Pick(c03Suffixes)
+		}
+	}
+	deep := len(b.Layers) - 1
+	name := rng.Pick([]string{"app", "web", "cfg"})
+	pick := func() int {
+		if rng.Chance(70) {
+			return deep
+		}
+		return rng.Intn(len(b.Layers))
+	}
+	mk := func(kind string, generated bool) *c03Res {
+		r := &c03Res{ID: g.newID(), APIVersion: "v1", Kind: kind, Name: name, Layer: pick(), Generated: generated}
+		if generated {
+			r.NoHash = rng.Chance(15)
+		}
+		r.Doc = map[string]interface{}{"apiVersion": "v1", "kind": kind,
+			"metadata": map[string]interface{}{"name": name, "annotations": map[string]interface{}{c03Tracer: r.ID}}}
+		b.Res = append(b.Res, r)
+		return r
+	}
+	sa := mk("ServiceAccount", false)
+	cm := mk("ConfigMap", rng.Chance(80))
+	sec := mk("Secret", rng.Chance(80))
+	// the referrer: a Pod in a kustomization at or above its referents
+	top := sa.Layer
+	for _, r := range []*c03Res{cm, sec} {
+		if r.Layer < top {
+			top = r.Layer
+		}
+	}
+	pod := &c03Res{ID: g.newID(), APIVersion: "v1", Kind: "Pod", Name: "anch", Layer: rng.Intn(top + 1)}
+	b.Res = append(b.Res, pod)
+	type site struct {
+		to       *c03Res
+		addr     []interface{}
+		rulePath string
+	}
+	sites := []site{
+		{sa, []interface{}{"spec", "serviceAccountName"}, "spec/serviceAccountName"},
+		{cm, []interface{}{"spec", "volumes", 0, "configMap", "name"}, "spec/volumes/configMap/name"},
+		{sec, []interface{}{"spec", "volumes", 1, "secret", "secretName"}, "spec/volumes/secret/secretName"},
+	}
+	// which site carries the anchor (the others alias it); sites are written in document order
+	anchorAt := rng.Intn(2) // the anchor must precede its aliases: site 0 or site 1
+	useSA := anchorAt == 0 || rng.Chance(50)
+	val := func(i int) string {
+		switch {
+		case i == anchorAt:
+			return "&n " + name
+		case i > anchorAt:
+			return "*n"
+		default:
+			return name
+		}
+	}
+	raw := "apiVersion: v1\nkind: Pod\nmetadata:\n  name: anch\n  annotations:\n    " + c03Tracer + ": " + pod.ID + "\nspec:\n"
+	spec := map[string]interface{}{}
+	if useSA {
+		raw += "  serviceAccountName: " + val(0) + "\n"
+		spec["serviceAccountName"] = name
+	}
+	raw += "  containers:\n  - name: c\n    image: busybox\n"
+	raw += "  volumes:\n  - name: v1\n    configMap:\n      name: " + val(1) + "\n  - name: v2\n    secret:\n      secretName: " + val(2) + "\n"
+	spec["containers"] = []interface{}{map[string]interface{}{"name": "c", "image": "busybox"}}
+	spec["volumes"] = []interface{}{
+		map[string]interface{}{"name": "v1", "configMap": map[string]interface{}{"name": name}},
+		map[string]interface{}{"name": "v2", "secret": map[string]interface{}{"secretName": name}},
+	}
+	pod.Raw = raw
+	pod.Doc = map[string]interface{}{"apiVersion": "v1", "kind": "Pod",
+		"metadata": map[string]interface{}{"name": "anch", "annotations": map[string]interface{}{c03Tracer: pod.ID}}, "spec": spec}
+	for i, st := range sites {
+		if i == 0 && !useSA {
+			continue
+		}
+		b.Edges = append(b.Edges, c03Edge{From: pod.ID, To: st.to.ID, Addr: st.addr, Old: name, RulePath: st.rulePath, Target: st.to.Kind})
+	}
+	for i := range b.Layers {
+		has := false
+		for _, r := range b.Res {
+			if r.Layer == i {
+				has = true
+			}
+		}
+		for j := range b.Layers {
+			if b.Layers[j].Parent == i {
+				has = true
+			}
+		}
+		if !has {
+			g.newRes("ConfigMap", "v1", "", i)
+		}
+	}
+	c03Render(b, rng)
+	return b
+}
+
 // c03LoadRefRules reads the committed reference copy of the rule table ("the documented rule set",
 // corpus/fieldspecs.ref.json, key nameReference).
 func c03LoadRefRules() ([]krusty.VerifC03Rule, error) {
@@ -1034,7 +1169,11 @@ func c03Render(b *c03Build, rng *Rng) {
 			if strings.HasPrefix(e, "res:") {
 				id := e[4:]
 				fn := id + ".yaml"
-				b.Files[l.Dir+"/"+fn] = c03Yaml(b.res(id).Doc)
+				if raw := b.res(id).Raw; raw != "" {
+					b.Files[l.Dir+"/"+fn] = raw
+				} else {
+					b.Files[l.Dir+"/"+fn] = c03Yaml(b.res(id).Doc)
+				}
 				resources = append(resources, fn)
 			} else {
 				var j int
@@ -1086,6 +1225,11 @@ func c03Render(b *c03Build, rng *Rng) {
 		}
 		if l.Namespace != "" {
 			k["namespace"] = l.Namespace
+		}
+		if l.Fn {
+			k["transformers"] = []interface{}{"fn.yaml"}
+			b.Files[l.Dir+"/fn.yaml"] = "apiVersion: example.com/v1\nkind: CatFn\nmetadata:\n  name: fn\n  annotations:\n    config.kubernetes.io/function: |\n      exec:\n        path: ./fn.sh\n"
+			b.Files[l.Dir+"/fn.sh"] = "#!/bin/sh\nexec cat\n"
 		}
 		if len(l.Patches) > 0 {
 			var ps []interface{}
@@ -1323,7 +1467,38 @@ func c03LayerTerm(b *c03Build, i int, vals map[string]bool, pairs map[[2]string]
 		}
 		items = append(items, "IGen "+t)
 	}
-	return fmt.Sprintf("(Layer %s %s %s [%s])", coqStr(l.Namespace), coqStr(l.Prefix), coqStr(l.Suffix), strings.Join(items, "; ")), true
+	// the patch entries: one selection (flags over the accumulated resources, in order) per entry
+	ids := c03LayerIDs(b, i)
+	var touches []string
+	for _, p := range l.Patches {
+		if p.Op == "merge" {
+			continue // ApplySmPatch records the id only when the patch may change name or kind
+		}
+		flags := make([]string, len(ids))
+		for k, id := range ids {
+			flags[k] = coqBool(id == p.ID)
+		}
+		touches = append(touches, "["+strings.Join(flags, "; ")+"]")
+	}
+	return fmt.Sprintf("(Layer %s %s %s [%s] [%s])", coqStr(l.Namespace), coqStr(l.Prefix), coqStr(l.Suffix),
+		strings.Join(touches, "; "), strings.Join(items, "; ")), true
+}
+
+// c03LayerIDs: the resources kustomization i accumulates, in accumulation order (entries, bases flattened, then
+// the generated ones) - the order of the items of c03LayerTerm.
+func c03LayerIDs(b *c03Build, i int) []string {
+	l := b.Layers[i]
+	var ids []string
+	for _, e := range l.Entries {
+		if strings.HasPrefix(e, "res:") {
+			ids = append(ids, e[4:])
+		} else {
+			var j int
+			fmt.Sscanf(e, "dir:%d", &j)
+			ids = append(ids, c03LayerIDs(b, j)...)
+		}
+	}
+	return append(ids, l.Gens...)
 }
 
 // ---------------------------------------------------------------- running a build
@@ -1339,15 +1514,51 @@ type c03Outcome struct {
 
 func c03Run(b *c03Build) c03Outcome {
 	var o c03Outcome
+	fn := false
+	for _, l := range b.Layers {
+		fn = fn || l.Fn
+	}
+	mkOpts := krusty.MakeDefaultOptions
+	mkFs := func() filesys.FileSystem { return c03MakeFs(b.Files) }
+	top := b.Top
+	if fn {
+		// exec KRM functions need real files and the plugin options that allow exec
+		root, err := os.MkdirTemp("", "c03exec")
+		if err != nil {
+			o.stageCls, o.stageMsg, o.realCls, o.realMsg = ClsErr, "harness: "+err.Error(), ClsErr, "harness: "+err.Error()
+			return o
+		}
+		defer os.RemoveAll(root)
+		if r, e := filepath.EvalSymlinks(root); e == nil {
+			root = r
+		}
+		for p, c := range b.Files {
+			full := filepath.Join(root, p)
+			_ = os.MkdirAll(filepath.Dir(full), 0o755)
+			mode := os.FileMode(0o644)
+			if strings.HasSuffix(p, ".sh") {
+				mode = 0o755
+			}
+			_ = os.WriteFile(full, []byte(c), mode)
+		}
+		mkOpts = func() *krusty.Options {
+			op := krusty.MakeDefaultOptions()
+			op.PluginConfig = types.EnabledPluginConfig(types.BploUseStaticallyLinked)
+			op.PluginConfig.FnpLoadingOptions.EnableExec = true
+			return op
+		}
+		mkFs = func() filesys.FileSystem { return filesys.MakeFsOnDisk() }
+		top = filepath.Join(root, b.Top)
+	}
 	o.stageCls, o.stageMsg = protect(func() error {
-		k := krusty.MakeKustomizer(krusty.MakeDefaultOptions())
-		st, err := k.VerifC03RunStages(c03MakeFs(b.Files), b.Top)
+		k := krusty.MakeKustomizer(mkOpts())
+		st, err := k.VerifC03RunStages(mkFs(), top)
 		o.stages = st
 		return err
 	})
 	o.realCls, o.realMsg = protect(func() error {
-		k := krusty.MakeKustomizer(krusty.MakeDefaultOptions())
-		m, err := k.Run(c03MakeFs(b.Files), b.Top)
+		k := krusty.MakeKustomizer(mkOpts())
+		m, err := k.Run(mkFs(), top)
 		o.real = m
 		return err
 	})
@@ -1831,15 +2042,21 @@ func c03IsCascade(b *c03Build, e c03Edge, got, want string, out map[string]*reso
 		return false
 	}
 	// kinds of the rows that reach this field of this referrer
+	// (a row that lists the field twice - the Secret row has Ingress spec/tls/secretName twice and the merge of
+	// the default table keeps duplicates inside a row - visits it twice: it can follow its own rewrite)
 	reaching := map[string]bool{}
+	visits := map[string]int{}
+	total := 0
 	for _, row := range rules {
 		for _, fs := range row.Referrers {
 			if fs.Path == e.RulePath && c03RuleSelects(fs.Group, fs.Version, fs.Kind, a.APIVersion, a.Kind) {
 				reaching[row.Kind] = true
+				visits[row.Kind]++
+				total++
 			}
 		}
 	}
-	if !reaching[t.Kind] || len(reaching) < 2 {
+	if !reaching[t.Kind] || total < 2 {
 		return false
 	}
 	type state struct{ text, lastKind string }
@@ -1850,7 +2067,7 @@ func c03IsCascade(b *c03Build, e c03Edge, got, want string, out map[string]*reso
 		todo = todo[1:]
 		for _, r := range b.Res {
 			o := out[r.ID]
-			if o == nil || !reaching[r.Kind] || r.Kind == cur.lastKind || !c03NameInHistory(b, r, cur.text) {
+			if o == nil || !reaching[r.Kind] || (r.Kind == cur.lastKind && visits[r.Kind] < 2) || !c03NameInHistory(b, r, cur.text) {
 				continue
 			}
 			next := o.GetName()
@@ -1896,17 +2113,7 @@ func c03Cases(r *Run, b *c03Build, o c03Outcome) {
 	}
 	st := o.stages
 	// ---- CBook: layering -> identity + history before FixBackReferences
-	patched := false
-	for _, l := range b.Layers {
-		if len(l.Patches) > 0 {
-			patched = true
-		}
-	}
-	if patched {
-		// PatchTransformer is outside the rename model (it also calls StorePreviousId on every target, which
-		// records the current id once more): such builds are judged by the CRef case and the laws only
-		r.Count("case", "book:not-modelled(patches)")
-	} else if st.Stage == "" || st.Stage == "accumulate" || st.Stage == "hash" || st.Stage == "nameref" {
+	if st.Stage == "" || st.Stage == "accumulate" || st.Stage == "hash" || st.Stage == "nameref" {
 		vals := map[string]bool{}
 		pairs := map[[2]string]bool{}
 		lt, ok := c03LayerTerm(b, 0, vals, pairs)
@@ -2643,6 +2850,11 @@ func runC03(r *Run, rng *Rng, tier string) error {
 		o := c03Run(b)
 		r.Count("shape", b.Shape)
 		r.Count("build", o.realCls)
+		for _, l := range b.Layers {
+			if l.Fn {
+				r.Count("exec-function", o.realCls)
+			}
+		}
 		c03Cases(r, b, o)
 		c03Oracles(r, b, o, gen)
 	}
@@ -2690,6 +2902,18 @@ func runC03(r *Run, rng *Rng, tier string) error {
 			}
 			c03Oracles(r, b, o, gen)
 		}
+	}
+	nAnch := 10
+	if tier == "thorough" {
+		nAnch = 150
+	}
+	for i := 0; i < nAnch; i++ {
+		b := c03GenAnchorBuild(rng.Fork(), gen)
+		o := c03Run(b)
+		r.Count("shape", b.Shape)
+		r.Count("build", o.realCls)
+		c03Cases(r, b, o)
+		c03Oracles(r, b, o, gen)
 	}
 	for i := 0; i < nLaw; i++ {
 		b := c03GenBuild(rng.Fork(), gen)
